@@ -17,6 +17,7 @@ class DirWorld:
     def __init__(self, cfg):
         t = base.tartiflette()
         self.sn = unique_schema_name("dir")
+        self.cfg = cfg
         self.log = []
         self.args_seen = []
         w = self
@@ -65,13 +66,18 @@ scalar Sx%s
 enum E%s { X%s  Y }
 input In%s { f: Sx%s  e: E }
 type T%s { s: Sx }
+interface I { n: Sx }
+type IA implements I { n: Sx%s }
+type IB implements I { n: Sx%s }
 type Query {
+  items: [I]
   fs(a: Sx%s): Sx%s
   fe(a: E%s): E%s
   fi(a: In%s): Sx%s
   o: T
 }
 """ % (tags("ts", c["s"]), tags("te", c["e"]), tags("tv", c["v"]), tags("tio", c["io"]), tags("tif", c["if"]), tags("to", c["o"]),
+       tags("tf", c["f"]), tags("tf", c["f"]),
        tags("ta", c["a"]), tags("tf", c["f"]), tags("ta", c["a"]), tags("tf", c["f"]), tags("ta", c["a"]), tags("tf", c["f"]))
         self.sdl = sdl
 
@@ -90,6 +96,10 @@ type Query {
             w.args_seen.append((a.get("a") or {}).get("f"))
             return (a.get("a") or {}).get("f")
 
+        @t.Resolver("Query.items", schema_name=self.sn)
+        async def items(p, a, ctx, i):
+            return [{"_typename": "IA", "n": "r(a)"}, {"_typename": "IB", "n": "r(b)"}]
+
         @t.Resolver("Query.o", schema_name=self.sn)
         async def o(p, a, ctx, i):
             return {"s": "r(v)"}
@@ -105,6 +115,15 @@ type Query {
             "objnested": ("query ($x: Sx) { fi(a: {f: $x, e: X})%s }" % q, {"x": "v"}, "fi"),
             "object": ("{ o { s } }", None, "o"),
         }
+
+    def run_merged(self):
+        """items { n @tq ... on IB { n @tr } }: one merged node for the IA item, two for the IB item"""
+        q = "{ items { n%s ... on IB { n%s } } }" % (" @tq(n: 1)" if self.cfg["q"] >= 1 else "", " @tr(n: 2)" if self.cfg["q"] >= 2 else "")
+        self.log = []
+        try:
+            return main_loop().run(self.eng.execute(q)), q
+        except BaseException as e:
+            return {"__raised__": repr(e)}, q
 
     def run(self, kind):
         q, variables, field = self.requests[kind]
@@ -149,6 +168,18 @@ def job(j):
             if mm and len(st["viol"]) < 400:
                 genrun.add_viol(st["viol"], ({"kind": "directive-mismatch", "request": kind, "first": mm[0][:120]},
                                              {"cfg": c, "sdl": w.sdl, "request": w.requests[kind][:2], "mismatches": mm, "log": w.log}))
+        st["n"] += 1
+        resp, q = w.run_merged()
+        mm = []
+        if not isinstance(resp, dict) or resp.get("errors") or "__raised__" in resp:
+            mm.append("merged: errors %r" % (resp,))
+        else:
+            got = [it["n"] for it in resp["data"]["items"]]
+            want = [rec["merged"]["itemA"], rec["merged"]["itemB"]]
+            if got != want:
+                mm.append("merged field nodes: data %r expected %r" % (got, want))
+        if mm and len(st["viol"]) < 400:
+            genrun.add_viol(st["viol"], ({"kind": "directive-mismatch", "request": "merged", "first": mm[0][:120]}, {"cfg": c, "sdl": w.sdl, "request": q, "mismatches": mm}))
         if len(st["samples"]) < 1 and all(v == 2 for v in c.values()):
             st["samples"].append({"cfg": c, "requests": {k: v[0] for k, v in w.requests.items()}, "expected": {k: {"arg": e["arg"], "data": e["data"]} for k, e in rec["expect"].items()}})
 
